@@ -86,7 +86,7 @@ uint64_t now_ns, g_steps, cost_ns = 1000;
 int fiber_mode;
 unsigned fault_mask;
 static uint64_t busy_steps, last_progress_busy, last_progress_ns, idle_since_ns;
-static uint64_t max_steps = 3000000, stuck_busy = 400000, quiet_ns = 40 * TICK_NS, max_sim_ns = 120000000000ull;
+static uint64_t max_steps = 5000000, stuck_busy = 1000000, quiet_ns = 40 * TICK_NS, max_sim_ns = 120000000000ull;
 static uint32_t pinv = 50;
 static unsigned boost_mask;
 static int preempt_off;
